@@ -1284,7 +1284,8 @@ PARTS = {
                                             "base model: record, two generic records, enum with base, protocol with plain/generic/stream/enum/optional/union/fixed-vector/map steps; "
                                             "optionally the record also occurs as map value or array element"],
                                desc="real dsl.Validate on old and new = edit(old), then real ValidateEvolution: verdict class (silent / warning / error) equals the documented class for "
-                                    "27 edit kinds, alone and combined with a compatible change of the record they refer to; number pair and vector lengths symbolic")),
+                                    "27 edit kinds, alone and combined with a compatible change of the record they refer to; number pair and vector lengths symbolic; a changed enum value is any pair of "
+                                    "different boundary values (change of sign included) of a symbolic base type out of int8/16/32/64, uint8/64")),
         (G, "gosym_part", dict(name="c06_reference_shapes", entry="internal/zzverif.C06RefShape", args_quick=(0, 1), args_thorough=(1, 1), key_fn=c06_key,
                                extra_thorough=("-max-paths", "100000"),
                                required_sites=("verdict-without-panic", "breaking-change-rejected", "partial-change-accepted", "partial-change-warned",
